@@ -226,6 +226,17 @@ impl Resolver<'_> {
                     into_literal_range(range_tuple)?
                 };
 
+                // `rows` and `range` default to the empty range 0..-1, which stands for "not given".
+                // Any other empty range is a mistake: it used to be taken for "not given" as well
+                // (the whole partition) instead of the empty segment it denotes.
+                for (name, r) in [("rows", &rows), ("range", &range)] {
+                    if range_is_empty(r) && *r != (Some(0), Some(-1)) {
+                        return Err(Error::new_simple(format!(
+                            "window: `{name}` is an empty range (its start is after its end)"
+                        )));
+                    }
+                }
+
                 let (kind, start, end) = if expanding {
                     (WindowKind::Rows, None, Some(0))
                 } else if rolling > 0 {
